@@ -14,6 +14,9 @@ elab "#audit_module " m:ident : command => do
   let names := env.header.moduleData[idx.toNat]!.constNames
   for n in names do
     if n.isInternal then continue
+    -- skip auto-generated equation / unfolding lemmas of definitions (`f.eq_1`, `f.eq_def`, ...)
+    let last := match n with | .str _ s => s | _ => ""
+    if (last.startsWith "eq_" || last == "induct" || last.startsWith "match_") && (env.find? n.getPrefix).isSome then continue
     match env.find? n with
     | some (.thmInfo _) =>
       let axs ← liftCoreM (collectAxioms n)
